@@ -90,6 +90,18 @@ def _(rng, v, extra):
 	return extra["t"]
 
 
+@deriv("t.x__0 = v (donor)", "vector")
+def _(rng, v, extra):
+	setattr(extra["t"], "a__0", v)      # the indexed spelling of the same column replacement
+	return extra["t"]
+
+
+@deriv("t.x__1 = v (donor)", "vector")
+def _(rng, v, extra):
+	setattr(extra["t"], "b__1", v)
+	return extra["t"]
+
+
 def _donor(origin):
 	def fn(rng, v, extra):
 		w = extra["w"]
